@@ -165,6 +165,15 @@ MUTANTS = [
     M('parser:postfix:call-result-indexed-as-identifier', 'parser', ['C05'], 'postfix_expr', 'IDENTIFIER => indexed_identifier(p, lhs),', 'IDENTIFIER | CALL_EXPR => indexed_identifier(p, lhs),'),
     M('parser:array_type_spec:keyword-bumped-blindly', 'parser', ['C12'], 'array_type_spec', '    p.expect(T![array]);\n', '    p.bump_any();\n'),
     M('parser:var_name:any-token-is-a-name', 'parser', ['C12'], 'var_name', '    if p.at(IDENT) {', '    if !p.at(EOF) {'),
+    M('lex:unit:seconds-not-a-unit', 'lex', ['C15'], "Cursor<'_>::has_timing_or_imaginary_suffix", "if self.first() == 's' {", "if self.first() == 'S' {"),
+    M('lex:number:unit-swallowed', 'lex', ['C15'], "Cursor<'_>::advance_token", '''                let suffix_start = self.pos_within_token();
+                // If this a timing (or duration) literal, we will parse the
+                // time unit as another token.  So we don't eat the suffix if it
+                // is a time unit.
+                if !self.has_timing_or_imaginary_suffix() {
+                    self.eat_literal_suffix();
+                }''', '''                let suffix_start = self.pos_within_token();
+                self.eat_literal_suffix();'''),
     # ---- LEX extents
     M('lex:line_comment:stops-at-space', 'lex', ['C15', 'C14'], "Cursor<'_>::line_comment", "{ c != '\\n' });", "{ c != '\\n' && c != ' ' });"),
     M('lex:eat_identifier:start-test-inverted', 'lex', ['C15'], "Cursor<'_>::eat_identifier", 'if !is_id_start(self.first()) {', 'if is_id_start(self.first()) {'),
